@@ -775,8 +775,16 @@ class MultiStream(Stream):
                     other_data[:] = 0.
                     other_data[IDs_index] = excluded_data   
         elif multiphase:
-            data[phase_index, IDs_index] = other_data[phase_index, IDs_index]
-            if remove: other_data[phase_index, IDs_index] = 0.
+            if phase is ... and self.phases != other.phases:
+                # Different phase sets; copy each phase by its label
+                get_phase_index = self.imol.get_phase_index
+                data[:, IDs_index] = 0.
+                for other_phase, row in zip(other.phases, other_data.rows):
+                    if row.any(): data[get_phase_index(other_phase), IDs_index] += row[IDs_index]
+                if remove: other_data[:, IDs_index] = 0.
+            else:
+                data[phase_index, IDs_index] = other_data[phase_index, IDs_index]
+                if remove: other_data[phase_index, IDs_index] = 0.
         else:
             data[:] = 0.
             other_phase_index = self.imol.get_phase_index(other.phase)
